@@ -1,2 +1,3 @@
 pub mod chain;
+pub mod crash;
 pub mod pool;
